@@ -196,6 +196,8 @@ pub fn gen_scenario(rng: &mut Rng, thorough: bool) -> Scenario {
     let target = if rng.chance(1, 3) {
         Some(match pool { 0 | 4 | 5 | 6 | 7 => rng.range(-6, 6) as f64, 1 => (rng.range(-3, 3) as f64) * 1e299, 2 => -(rng.below(60) as f64), _ => rng.below(60) as f64 })
     } else { None };
+    // an infinite target: +inf is reached by the first accepted result, -inf never
+    let target = if target.is_some() && rng.chance(1, 8) { Some(if rng.chance(2, 3) { f64::INFINITY } else { f64::NEG_INFINITY }) } else { target };
     let (spec, guesses) = SPECS[rng.below(SPECS.len() as u64) as usize];
     let guess = if rng.chance(1, 4) { Some(serde_json::from_str(*rng.pick(guesses)).unwrap()) } else { None };
     let max_rounds = if thorough { 2000 } else { 60 + rng.below(200) as usize };
@@ -305,6 +307,7 @@ pub fn run_scenario(sc: &Scenario, sh: Arc<Mutex<Shared>>) -> J {
         let mut counter = 0u64;
         let mut round = 0usize;
         let mut terminated = 0u32;
+        let mut acc_bits: Vec<u64> = Vec::new();   // bit patterns of the accepted values the controller took
         let mut delivered: Vec<J> = Vec::new();    // (seed, outcome) of every completion the controller took, in order
         let mut forced_pos = 0usize;
         let mut released: Vec<u64> = Vec::new();   // accept/reject completions released by the script, in release order
@@ -343,7 +346,7 @@ pub fn run_scenario(sc: &Scenario, sh: Arc<Mutex<Shared>>) -> J {
             let mut items_j = Vec::new();
             for (id, seed, val) in &items {
                 let res = match pending.remove(seed) {
-                    Some(Outcome::Acc(x)) => { delivered.push(json!([seed, x.to_bits()])); let l = samples.entry(*id).or_default(); l.push(x); json!({"acc": [order_code(x), order_code(mean_like_impl(l))]}) }
+                    Some(Outcome::Acc(x)) => { acc_bits.push(x.to_bits()); delivered.push(json!([seed, x.to_bits()])); let l = samples.entry(*id).or_default(); l.push(x); json!({"acc": [order_code(x), order_code(mean_like_impl(l))]}) }
                     Some(Outcome::Rej) => { delivered.push(json!([seed, "rej"])); samples.remove(id); json!("rej") }
                     other => json!({"unexpectedItem": format!("{other:?}")}),
                 };
@@ -424,6 +427,9 @@ pub fn run_scenario(sc: &Scenario, sh: Arc<Mutex<Shared>>) -> J {
             }
             round += 1;
         }
+        // sample size 1: the reported objective value is bit for bit one of the values the objective function returned
+        let best_bits_ok = match (&result, sc.sample_size) { (Some(Ok(rep)), 1) => json!(acc_bits.contains(&rep.best_seen.obj_func_val.to_bits())), _ => J::Null };
+        let best_text = match &result { Some(Ok(rep)) => json!(format!("{:?}", rep.best_seen.obj_func_val)), _ => J::Null };
         let g = sh2.lock().unwrap();
         // completions that were released (the evaluation had finished) but never taken by the controller
         let undelivered: Vec<u64> = released.iter().filter(|s| pending.contains_key(s)).cloned().collect();
@@ -433,7 +439,7 @@ pub fn run_scenario(sc: &Scenario, sh: Arc<Mutex<Shared>>) -> J {
             .filter_map(|s| match pending.get(s) { Some(Outcome::Acc(x)) => Some(json!([s, released_round[s], order_code(*x)])), _ => None }).collect();
         drop(held);
         json!({"maxInflight": g.max_inflight, "dupInflight": g.dup_inflight, "undelivered": undelivered, "returned": result.is_some(),
-               "delivered": delivered, "terminates": terminated, "parked": parked, "lastRound": round})
+               "delivered": delivered, "terminates": terminated, "parked": parked, "lastRound": round, "bestBitsOk": best_bits_ok, "bestText": best_text})
     });
     let g = sh.lock().unwrap();
     let mut line = json!({"mode": "ctl", "cfg": g.header, "rounds": g.rounds, "stats": ret});
